@@ -270,6 +270,7 @@ pub fn exec_lnk(case: &[u64]) -> L {
     let link = case[0]; let ng = case[1] as usize; let gaps = &case[2..2 + ng];
     let np = case[2 + ng] as usize; let mut rest = &case[3 + ng..];
     let mut pkts = vec![]; for _ in 0..np { let (p, r) = parse_packet(rest); pkts.push(p); rest = r; }
+    let flags = if rest.len() == 1 { rest[0] } else { 0 }; let intr = flags & 2 != 0; let alt = flags & 4 != 0;
     // the wire image is what the real sender hands to an always-ready device
     let built = catch_unwind(AssertUnwindSafe(|| -> Option<L> {
         let mut toks: L = vec![];
@@ -294,14 +295,22 @@ pub fn exec_lnk(case: &[u64]) -> L {
                 // 'no data yet' only between link frames: frame boundaries from the frames' own lengths
                 let mut lens = vec![]; for p in &pkts { for f in p.to_frames().iter() { lens.push(f.to_usart_frame().len() + 2); } }
                 if lens.iter().sum::<usize>() == tx_bytes.len() {
-                    let mut pos = 0;
-                    for (j, n) in lens.iter().enumerate() { for _ in 0..gap_at(gaps, j) { toks.push(256); } toks.extend(tx_bytes[pos..pos + n].iter().map(|b| *b as u64)); pos += n; }
+                    let mut pos = 0; let mut g = 0usize;
+                    for (j, n) in lens.iter().enumerate() {
+                        // 'no data yet' as TimedOut, or (alt) as the other ways a port can fail a read without data: Ok(0), WouldBlock, UnexpectedEof, BrokenPipe
+                        for _ in 0..gap_at(gaps, j) { toks.push(if alt { [262u64, 259, 260, 261][g % 4] } else { 256 }); g += 1; }
+                        for (i, b) in tx_bytes[pos..pos + n].iter().enumerate() {
+                            if intr && (i == 1 || (i == 3 && *n >= 4)) { toks.push(258); }      // EINTR between delimiter and length byte, and inside the body
+                            toks.push(*b as u64);
+                        }
+                        pos += n;
+                    }
                 } else { toks.extend(tx_bytes.iter().map(|b| *b as u64)); }
             }
         }
         Some(toks)
     }));
-    let duplex = rest.len() == 1 && rest[0] != 0;
+    let duplex = flags & 1 != 0;
     match built { Ok(Some(toks)) => poll_tokens_duplex(link, &toks, duplex), _ => vec![3] }
 }
 pub fn gen_lnk(r: &mut Rng, thorough: bool, cx: &mut Ctx) {
@@ -319,7 +328,9 @@ pub fn gen_lnk(r: &mut Rng, thorough: bool, cx: &mut Ctx) {
                 if let Some(q) = prevp.clone() { match r.below(10) { 0 | 1 => { p = q; } 2 => { p = q; p.is_error = !p.is_error; } 3 => { p.device_address = q.device_address; } _ => {} } }
                 show_packet(&p, &mut l); prevp = Some(p);
             }
-            if k % 5 == 3 { l.push(1); }      // full duplex: the receiving node transmits before it polls
+            // flags: 1 = full duplex (the receiving node transmits before it polls); serial port: 2 = EINTR inside frames, 4 = other 'no data' read failures
+            let fl = (if k % 5 == 3 { 1 } else { 0 }) | (if link == 2 && k % 7 == 2 { 2 } else { 0 }) | (if link == 2 && k % 7 == 5 { 4 } else { 0 });
+            if fl != 0 { l.push(fl); }
             cx.emit(&l);
         }
         // long sequences of small packets (counters kept across packets)
